@@ -186,9 +186,9 @@ def _history(case):
     ]
     res = history.explore(make, ops, max(case["depth"], 3), atol=1e-5, rtol=1e-5, mutators=mutators,
                           prefixes_only_from={"simulate", "simulate_2d", "tilt_series", "replace(order=1).simulate", "subset(a).simulate"} if case["depth"] < 3 else None)
-    if res["raises_alone"]:
-        raise RuntimeError(f"harness: operations {res['raises_alone']} raise on a fresh simulator")
     viol, seen = [], set()
+    for n_ in res["raises_alone"]:
+        viol.append((f"{ID}|history|raises-on-a-fresh-simulator|{n_.split('(')[0]}", f"simulator of order {order0}: {n_} raised {res['raises_alone_msg'][n_]}"))
     for hist, why in res["failures"]:
         sg = f"{ID}|history|{hist[-1].split('(')[0]}-after-{hist[-2].split('(')[0]}"
         if sg not in seen:
